@@ -322,6 +322,7 @@ def build(tier="quick", seed=0):
 
     pack.add(Obligation("C15.composition_sweep", run_sweep, kind="bounded", note="native run against a dictionary-based reference model: random descriptor lists (up to 5 records x 5 fields, overlapping names, differing types incl. text / bytes / timestamps), "
                         "replace and rename, repeated descriptors; timestamp expansion, grouped records, projection; bound 300 (quick) / 6000 (thorough) cases", functions=FU))
+    pack.loop_modes = {"merge_record_descriptors / extend_record / GroupedRecord.__init__ / iter_timestamped_records loops": "unrolled over the concrete shape (BOUNDED WIDTH: records x fields as named in each obligation); all name-equality patterns of the shape, values symbolic"}
     pack.assumptions += ["composition depends on field names only through equality (dict keys / `in` tests): every equality pattern of a shape stands for all names with that pattern", "collections.OrderedDict / ChainMap semantics (executed natively on the engine's dictionaries)"]
     pack.not_covered = ["shapes wider than 3 records x 2 fields / 3 timestamp-expansion fields / 3 members x 2 fields in the deductive part (bounded-width; wider shapes only in the native sweep)", "Record._replace (C05.replace)",
                         "a field literally called ts or ts_description cannot survive the timestamp expansion next to the generated ts / ts_description (not demanded)"]
